@@ -262,9 +262,12 @@ class SegmentTensor(PolytopeTensor):
         w_r, w_i = np.real(w), np.imag(w)
         x = z_r * w_r + z_i * w_i
         y = w_r**2 + w_i**2
-        x_zero = np.isclose(x, 0, atol=EQ_TOL_ABS)
-        y_zero = np.isclose(y, 0, atol=EQ_TOL_ABS)
-        return result & (~x_zero | ~y_zero) & (0 <= x + tol) & (x <= y + tol)
+        # cd == bd for the point at infinity of the supporting line (and for a segment without extent); the comparison is
+        # relative to the two determinants, so that short segments are not mistaken for degenerate ones
+        at_infinity = y <= EQ_TOL_ABS * (np.abs(cd) ** 2 + np.abs(bd) ** 2)
+        # x and y scale with the fourth power of the length of the segment: the tolerance must not exceed a relative one
+        tol = tol * np.minimum(1, y)
+        return result & ~at_infinity & (0 <= x + tol) & (x <= y + tol)
 
     def intersect(
         self, other: LineTensor | PlaneTensor | SegmentTensor | PolygonTensor | Polyhedron
